@@ -82,7 +82,7 @@ theorem reductions_def {α : Type} (F : Fns α) (u : USet α) (x : α) (xs : Lis
    scalarFn_norm2 F u x xs h⟩
 
 theorem reductions_empty {α : Type} (F : Fns α) (t : TT) (u : USet α) (h : definedValues u = []) :
-    scalarFn F t u = .ok USet.empty :=
+    scalarFn F t u = .ok (USet.scalar F none) :=
   scalarFn_empty F t u h
 
 /-- MAX / MIN return one of the defined elements. -/
